@@ -76,34 +76,131 @@ def stated_digits(src: str) -> dict:
     return out
 
 
-def record():
-    """Read every public constant of the catalogue from the working tree."""
-    import sympy
+# read paths: every public way of obtaining the SI value of a constant (name -> function(quantity) -> number)
+def _paths():
+    from symplyphysics.core import convert
+    from symplyphysics.core.dimensions import dimension_to_si_unit
+    return {
+        "scale": None,                                           # scale factor / 1000^(mass exponent), see record_table
+        "convert_to_si": convert.convert_to_si,
+        "convert_to_unit": lambda q: convert.convert_to(q, dimension_to_si_unit(q.dimension)),
+        "expr_symbolic": lambda q: convert.evaluate_expression(q, evaluate=False),
+        "expr_evaluated": lambda q: convert.evaluate_expression(q, evaluate=True),
+        "evaluate_quantity": lambda q: convert.convert_to_si(convert.evaluate_quantity(q)),
+    }
+
+
+# helper operations a user may have performed on a constant before reading it (results are discarded)
+def _helpers():
+    from symplyphysics import Quantity
+    from symplyphysics.core import convert
+    from symplyphysics.docs.printer_code import code_str
+    from symplyphysics.docs.printer_latex import latex_str
+    return {
+        "evalq_n3": lambda q: convert.evaluate_quantity(q, n=3),
+        "evalq_chop": lambda q: convert.evaluate_quantity(q, chop=True),
+        "to_si": lambda q: (convert.convert_to_si(q), convert.convert_to_float(q / q)),
+        "expr_eval_n4": lambda q: convert.evaluate_expression(q * 2, evaluate=True, n=4),
+        "algebra": lambda q: (Quantity(q * 3), Quantity(q**2), Quantity(q / 7)),
+        "print": lambda q: (str(q), code_str(q), latex_str(q)),
+    }
+
+
+PATH_NAMES = ["scale", "convert_to_si", "convert_to_unit", "expr_symbolic", "expr_evaluated", "evaluate_quantity"]
+HELPER_NAMES = ["evalq_n3", "evalq_chop", "to_si", "expr_eval_n4", "algebra", "print"]
+
+
+def catalogue():
     from symplyphysics import quantities
     from symplyphysics.core.symbols.quantities import Quantity
-    src = (REPO / "symplyphysics" / "quantities" / "__init__.py").read_text(encoding="utf-8")
-    sig = stated_digits(src)
     exported = list(quantities.__all__)
     others = sorted(n for n, o in vars(quantities).items()
                     if isinstance(o, Quantity) and not n.startswith("_") and n not in exported)
-    rows, problems = [], []
-    for name in exported + others:
-        q = getattr(quantities, name, None)
-        if not isinstance(q, Quantity):
-            problems.append((name, f"exported name {name} is not a Quantity: {q!r}"))
-            continue
-        dim = qc_common.project_dim(q.dimension)
-        if dim is None or any(int(d) != 1 for _n, d in dim):
-            problems.append((name, f"dimension {q.dimension} has no integer SI exponent vector"))
-            continue
-        si = sympy.N(qc_common.to_si(q.scale_factor, dim), 30)
-        if not (si.is_real and si.is_finite):
-            problems.append((name, f"SI value {si} is not a finite real number"))
-            continue
-        m, e = normalise(Decimal(str(si)))
-        rows.append({"name": name, "exported": name in exported, "d": dim, "m": m, "e": e, "sig": sig.get(name, 9),
-                     "_value": str(sympy.N(si, 12)), "_dimension": str(q.dimension)})
-    return rows, problems
+    return quantities, exported, others
+
+
+def record_tables(hist):
+    """Perform the helper calls of `hist` on every constant, then read every constant through every path.
+    Returns ([{hist, path, rows}], problems).  Run in a forked child (isolated()): a helper that corrupts the
+    shared catalogue must not leak into the next history."""
+    import sympy
+    from symplyphysics.core.symbols.quantities import Quantity
+    quantities, exported, others = catalogue()
+    src = (REPO / "symplyphysics" / "quantities" / "__init__.py").read_text(encoding="utf-8")
+    sig = stated_digits(src)
+    helpers, paths = _helpers(), _paths()
+    problems = []
+    names = exported + others
+    for h in hist:
+        for name in names:
+            q = getattr(quantities, name, None)
+            if isinstance(q, Quantity):
+                try:
+                    helpers[h](q)
+                except Exception:  # pylint: disable=broad-except
+                    pass      # the helper's own refusal is not the subject of C20
+    tables = []
+    for path in PATH_NAMES:
+        rows = []
+        for name in names:
+            q = getattr(quantities, name, None)
+            if not isinstance(q, Quantity):
+                problems.append((name, path, f"exported name {name} is not a Quantity: {q!r}"))
+                continue
+            dim = qc_common.project_dim(q.dimension)
+            if dim is None or any(int(d) != 1 for _n, d in dim):
+                problems.append((name, path, f"dimension {q.dimension} has no integer SI exponent vector"))
+                continue
+            try:
+                raw = qc_common.to_si(q.scale_factor, dim) if path == "scale" else paths[path](q)
+                si = sympy.N(raw, 30)
+                ok = bool(si.is_real and si.is_finite)
+            except Exception as e:  # pylint: disable=broad-except
+                problems.append((name, path, f"reading the constant through {path} raised {type(e).__name__}: {e}"))
+                continue
+            if not ok:
+                problems.append((name, path, f"value read through {path} is {raw}: not a finite real number"))
+                continue
+            m, e = normalise(Decimal(str(si)))
+            rows.append({"name": name, "exported": name in exported, "d": dim, "m": m, "e": e, "sig": sig.get(name, 9),
+                         "_value": str(sympy.N(si, 12)), "_dimension": str(q.dimension)})
+        tables.append({"hist": list(hist), "path": path, "rows": rows})
+    return tables, problems
+
+
+def isolated(fn, *args):
+    """Run fn(*args) in a forked child and return its (pickled) result."""
+    import os
+    import pickle
+    r, w = os.pipe()
+    pid = os.fork()
+    if pid == 0:
+        os.close(r)
+        try:
+            data = pickle.dumps(("ok", fn(*args)))
+        except BaseException as e:  # pylint: disable=broad-except
+            data = pickle.dumps(("error", f"{type(e).__name__}: {e}"))
+        with os.fdopen(w, "wb") as f:
+            f.write(data)
+        os._exit(0)
+    os.close(w)
+    with os.fdopen(r, "rb") as f:
+        data = f.read()
+    os.waitpid(pid, 0)
+    kind, val = pickle.loads(data)
+    if kind == "error":
+        raise RuntimeError(f"recording child failed: {val}")
+    return val
+
+
+def enumerate_histories(run: Run, sc: Path, max_hist: int):
+    cfg = write_cfg(sc / "constants_use.cfg", init="UInit", next_="UNext",
+                    constants={"MaxHist": max_hist, "Helpers": set(HELPER_NAMES), "Paths": set(PATH_NAMES)},
+                    invariants=["CatalogueImmutable", "ReadsAgree", "IdentitiesSurvive", "UEmit"])
+    res = run_tlc("ConstantsUse", cfg, sc, workers=1, coverage=True, allow_violation=False)
+    run.add_tlc(res, f"use model: every history of up to {max_hist} helper calls over {len(HELPER_NAMES)} helpers leaves the "
+                     "catalogue and the identities intact; every read path returns the catalogue entry")
+    return [p["hist"] for p in res.printed if "hist" in p]
 
 
 def check_reference(run: Run, sc: Path) -> None:
@@ -134,55 +231,104 @@ def check_reference(run: Run, sc: Path) -> None:
     run.evaluations += n
 
 
-def check_recorded(run: Run, sc: Path, rows, label: str = "") -> None:
+def check_recorded(run: Run, sc: Path, tables, label: str = "") -> None:
     tf = sc / f"constants_trace{label}.json"
-    tf.write_text(json.dumps({"rows": [{k: v for k, v in r.items() if not k.startswith("_")} for r in rows]}))
+    tf.write_text(json.dumps({"tables": [{"hist": t["hist"], "path": t["path"],
+                                          "rows": [{k: v for k, v in r.items() if not k.startswith("_")} for r in t["rows"]]}
+                                         for t in tables]}))
     cfg = write_cfg(sc / f"constants_trace{label}.cfg", init="TInit", next_="TNext",
                     invariants=["RowVerdict", "IdVerdict", "Unmatched"])
     res = run_tlc("ConstantsTrace", cfg, sc, workers=1, env={"TRACE_FILE": str(tf)}, allow_violation=False)
-    run.add_tlc(res, f"recorded constants: {len(rows)} rows and 7 identities decided by ConstantsTrace")
-    by_name = {r["name"]: r for r in rows}
-    verdicts = {p["row"]: p for p in res.printed if "row" in p}
-    ids = {p["id"]: p for p in res.printed if "id" in p}
-    if set(verdicts) != set(by_name) or len(ids) != 7:
-        raise RuntimeError(f"ConstantsTrace gave {len(verdicts)} row verdicts for {len(by_name)} rows, {len(ids)} identity verdicts")
-    for name, v in verdicts.items():
-        r = by_name[name]
-        run.traces += 1
-        if not v["covered"]:
-            run.outside(f"constant without a reference row: {name}")
-            continue
-        run.count(name)
-        what = []
-        if not v["dim"]:
-            what.append(f"dimension {r['_dimension']} (exponents L M T I K N J A = {[x[0] for x in r['d']]}) is not the "
-                        "dimension of the quantity it names")
-        if not v["val"]:
-            what.append(f"SI value {r['_value']} (mantissa {r['m']}e{r['e']}) differs from the reference "
-                        f"{v['refm']}e{v['refe']} by {v['dist']} units of the 9th digit; compared to {v['digits']} digits")
-        if what:
-            if r["exported"]:
-                run.violation(f"row {name}", "; ".join(what), {"name": name, "recorded": r, "verdict": v})
-            else:
-                run.outside(f"public constant not in __all__ deviates from its reference: {name}: " + "; ".join(what))
-        if len(run.samples) < 4:
-            run.sample({"constant": name, "recorded": {"m": r["m"], "e": r["e"], "dim": [x[0] for x in r["d"]], "stated_digits": r["sig"]},
-                        "reference": {"m": v["refm"], "e": v["refe"]}, "compared_to_digits": v["digits"], "distance": v["dist"]})
-    for idn, v in ids.items():
-        run.traces += 1
-        if not v["evaluated"]:
-            run.outside(f"identity {idn} not evaluated: a constant it involves is not exported")
-            continue
-        run.count(f"identity {idn}")
-        if not v["holds"]:
-            run.violation(f"identity {idn}", f"identity {idn} fails on the library's values: lhs {v['lhs']} vs rhs {v['rhs']}, "
-                          f"{v['dist']} units of the 9th digit apart, compared to {v['digits']} digits",
-                          {"identity": idn, "verdict": v, "rows": [r for r in rows if not r["name"].startswith("_")]})
+    nrows = sum(len(t["rows"]) for t in tables)
+    run.add_tlc(res, f"recorded constants: {len(tables)} tables (history of helper calls x read path), {nrows} rows and "
+                     f"{7 * len(tables)} identity evaluations decided by ConstantsTrace")
+    verdicts = {(p["tb"], p["row"]): p for p in res.printed if "row" in p}
+    ids = {(p["tb"], p["id"]): p for p in res.printed if "id" in p}
+    if len(verdicts) != nrows or len(ids) != 7 * len(tables):
+        raise RuntimeError(f"ConstantsTrace gave {len(verdicts)} row verdicts for {nrows} rows, {len(ids)} identity verdicts")
+    bad_plain = set()      # (name or identity, path) already wrong without any prior helper call
+    for n, t in enumerate(tables, start=1):
+        plain = not t["hist"]
+        where = ("" if t["path"] == "scale" else f" read through {t['path']}") + \
+                ("" if plain else f" after {' , '.join(t['hist'])} on the catalogue")
+        suffix = ("" if t["path"] == "scale" else f" via {t['path']}") + ("" if plain else f" after {' '.join(t['hist'])}")
+        for r in t["rows"]:
+            v = verdicts[(n, r["name"])]
+            name = r["name"]
+            run.traces += 1
+            if not v["covered"]:
+                if plain and t["path"] == "scale":
+                    run.outside(f"constant without a reference row: {name}")
+                continue
+            run.count(f"{name}{suffix}")
+            what = []
+            if not v["dim"]:
+                what.append(f"dimension {r['_dimension']} (exponents L M T I K N J A = {[x[0] for x in r['d']]}) is not the "
+                            "dimension of the quantity it names")
+            if not v["val"]:
+                what.append(f"SI value {r['_value']} (mantissa {r['m']}e{r['e']}){where} differs from the reference "
+                            f"{v['refm']}e{v['refe']} by {v['dist']} units of the 9th digit; compared to {v['digits']} digits")
+            if what:
+                if (name, "scale") in bad_plain and not (plain and t["path"] == "scale"):
+                    continue                  # the constant itself is wrong: reported once, for the direct read
+                if plain:
+                    bad_plain.add((name, t["path"]))
+                elif (name, t["path"]) in bad_plain:
+                    continue                  # already reported without the history
+                if r["exported"]:
+                    run.violation(f"row {name}{suffix}", "; ".join(what),
+                                  {"name": name, "hist": t["hist"], "path": t["path"], "recorded": r, "verdict": v})
+                else:
+                    run.outside(f"public constant not in __all__ deviates from its reference: {name}{suffix}: " + "; ".join(what))
+            if plain and t["path"] == "scale" and len(run.samples) < 4:
+                run.sample({"constant": name, "recorded": {"m": r["m"], "e": r["e"], "dim": [x[0] for x in r["d"]], "stated_digits": r["sig"]},
+                            "reference": {"m": v["refm"], "e": v["refe"]}, "compared_to_digits": v["digits"], "distance": v["dist"]})
+        for idn in sorted({k[1] for k in ids}):
+            v = ids[(n, idn)]
+            run.traces += 1
+            if not v["evaluated"]:
+                if plain and t["path"] == "scale":
+                    run.outside(f"identity {idn} not evaluated: a constant it involves is not exported")
+                continue
+            run.count(f"identity {idn}{suffix}")
+            if not v["holds"]:
+                if (idn, "scale") in bad_plain and not (plain and t["path"] == "scale"):
+                    continue
+                if plain:
+                    bad_plain.add((idn, t["path"]))
+                elif (idn, t["path"]) in bad_plain:
+                    continue
+                run.violation(f"identity {idn}{suffix}", f"identity {idn} fails on the library's values{where}: lhs {v['lhs']} vs "
+                              f"rhs {v['rhs']}, {v['dist']} units of the 9th digit apart, compared to {v['digits']} digits",
+                              {"identity": idn, "hist": t["hist"], "path": t["path"], "verdict": v})
     run.coverage["identity_margins_on_library_values"] = {
-        k: {"distance_in_9th_digit": v.get("dist"), "compared_to_digits": v.get("digits")} for k, v in ids.items()}
+        k[1]: {"distance_in_9th_digit": v.get("dist"), "compared_to_digits": v.get("digits")} for k, v in ids.items() if k[0] == 1}
     un = next((p["unmatched"] for p in res.printed if "unmatched" in p), [])
     if un:
         run.coverage["reference_rows_without_library_constant"] = un
+    if len(run.samples) < 6 and len(tables) > 1:
+        t = tables[-1]
+        run.sample({"history": t["hist"], "read_path": t["path"], "rows": len(t["rows"])})
+
+
+def record_all(run: Run, sc: Path, max_hist: int):
+    import symplyphysics.quantities  # noqa: F401  pylint: disable=unused-import,import-outside-toplevel
+    hists = enumerate_histories(run, sc, max_hist)
+    hists.sort(key=lambda h: (len(h), h))
+    tables = []
+    for h in hists:
+        tbs, problems = isolated(record_tables, h)
+        tables += tbs
+        for name, path, what in problems:
+            suffix = ("" if path == "scale" else f" via {path}") + ("" if not h else f" after {' '.join(h)}")
+            run.violation(f"row {name}{suffix}", what, {"name": name, "hist": h, "path": path})
+    run.coverage["histories_replayed"] = len(hists)
+    run.coverage["read_paths"] = PATH_NAMES
+    run.coverage["helper_operations"] = HELPER_NAMES
+    first = tables[0]["rows"] if tables else []
+    run.coverage["constants_recorded"] = {"exported": sum(1 for r in first if r["exported"]),
+                                          "public_not_exported": [r["name"] for r in first if not r["exported"]]}
+    return tables
 
 
 def main() -> int:
@@ -192,12 +338,8 @@ def main() -> int:
     run = Run(PID, tier)
     with Scratch() as sc:
         check_reference(run, sc)
-        rows, problems = record()
-        for name, what in problems:
-            run.violation(f"row {name}", what, {"name": name})
-        run.coverage["constants_recorded"] = {"exported": sum(1 for r in rows if r["exported"]),
-                                              "public_not_exported": [r["name"] for r in rows if not r["exported"]]}
-        check_recorded(run, sc, rows)
+        tables = record_all(run, sc, 1 if tier == "quick" else 2)
+        check_recorded(run, sc, tables)
     run.assumptions += [
         "reference values are CODATA 2018/2022 and IAU 2015 nominal values entered in spec/Constants.tla; where the two "
         "CODATA adjustments differ the reference precision stops before the first differing digit",
@@ -206,20 +348,32 @@ def main() -> int:
         "SymPy scale factors are relative to gram: SI value = scale factor / 1000^(mass exponent)",
         "identities are compared to the coarsest precision involved and to at most 7 digits (rounding of chained 9-digit products)",
         "public constants not listed in __all__ (gravitational_constant, sun_luminosity) are compared but a deviation is not an alarm",
+        "a constant is read through the scale factor and through the public conversion / evaluation functions of "
+        "symplyphysics.core.convert, before and after helper calls on the catalogue's own objects (each history in a fresh "
+        "process image); a helper raising is ignored, a read path raising is a violation",
     ]
     return run.finish(exhaustive=True)
 
 
 def replay_file(path: str) -> int:
+    """Re-run the recorded history (and the empty one) and look for the same finding."""
     data = json.loads(Path(path).read_text())
     run = Run(PID, "replay")
-    rows, problems = record()
     key = data["key"]
+    hist = data.get("case", {}).get("hist", [])
+    import symplyphysics.quantities  # noqa: F401  pylint: disable=unused-import,import-outside-toplevel
+    tables = []
+    for h in ([[]] if not hist else [[], hist]):
+        tbs, problems = isolated(record_tables, h)
+        tables += tbs
+        for name, pth, what in problems:
+            suffix = ("" if pth == "scale" else f" via {pth}") + ("" if not h else f" after {' '.join(h)}")
+            run.violation(f"row {name}{suffix}", what, {})
     with Scratch() as sc:
-        check_recorded(run, sc, rows)
-    bad = [v for v in run.violations if v["key"] == key] + [p for p in problems if f"row {p[0]}" == key]
+        check_recorded(run, sc, tables)
+    bad = [v for v in run.violations if v["key"] == key]
     for v in bad:
-        print(f"VIOLATION property={PID} replay={path}\n  {v}")
+        print(f"VIOLATION property={PID} replay={path}\n  {v['what']}")
     print("replayed:", key, "->", "violation" if bad else "ok")
     return 1 if bad else 0
 
